@@ -94,6 +94,14 @@ def check_v2(rec: Rec, doc):
         rec.fail("parse_v2_differs", "v2_expansion", {"doc": doc}, want, got)
 
 
+def unit_strategy():
+    from hypothesis import strategies as st
+    ov = overlay_strategy()
+    return st.one_of(st.lists(ov, min_size=2, max_size=3).map(lambda l: ("merge", l)),
+                     st.lists(ov, min_size=2, max_size=3).map(lambda l: ("merge", l)),
+                     v2_strategy().map(lambda d: ("v2", d)))
+
+
 def hyp_body(rec, v):
     kind, payload = v
     if kind == "merge":
@@ -396,7 +404,7 @@ def run(ctx):
     strat = st.one_of(st.lists(ov, min_size=2, max_size=3).map(lambda l: ("merge", l)),
                       st.lists(ov, min_size=2, max_size=3).map(lambda l: ("merge", l)),
                       v2_strategy().map(lambda d: ("v2", d)))
-    ctx.hyp_explore(strat, hyp_body, ctx.pick(4000, 150000), name="C18-unit")
+    ctx.hyp_parallel(unit_strategy, hyp_body, ctx.pick(8000, 400000), name="C18-unit")
     ctx.rec.merge(shard_identity(None))
     ctx.pmap(shard_copy, [(i, ctx.seed) for i in range(ctx.pick(48, 1200))])
     ctx.require_classes("merge-2-docs-conflict", "merge-3-docs-conflict", "v2-doc", "copy-config", "copy-config-3plus-files",
